@@ -268,6 +268,13 @@ fn main() {
         eprintln!("searched {n} signatures for set {} in {:.0}s", p.id, t0.elapsed().as_secs_f64());
         return;
     }
+    if cmd == "coldstart" {
+        // vcheck coldstart <seed>: the first library calls of this process are made by 16 threads at once
+        for l in props::c03::cold_start_lines(args[2].parse().expect("seed")) {
+            println!("{l}");
+        }
+        return;
+    }
     if cmd == "osrng-probe" {
         for l in props::c12::os_rng_probe_lines() {
             println!("{l}");
